@@ -11,12 +11,16 @@ import (
 // VerifBuildRealDB builds a real DB over the real in-memory file system (no redirects): under the engine the
 // file controller, readers and writers are interpreted like everything else.
 func VerifBuildRealDB(fs xfs.FS, specs []VerifDomainSpec, order []int) *DB {
+	return verifBuildRealDBCfg(Config{FS: fs}, specs, order)
+}
+
+func verifBuildRealDBCfg(cfg Config, specs []VerifDomainSpec, order []int) *DB {
 	if order == nil {
 		for i := range specs {
 			order = append(order, i)
 		}
 	}
-	db, err := Open(Config{FS: fs})
+	db, err := Open(cfg)
 	if err != nil {
 		panic(err)
 	}
